@@ -7,28 +7,14 @@ import Gomjml.Core.LayoutStd
 namespace Gomjml.Props.C02
 open Gomjml.Layout Gomjml.Spec
 
-/-- **C02 on the tame fragment, for every tree** (any number of blocks, any nesting the grammar allows): what standard
-    clients see is strictly nested, conditionals are delimited and never nested, no VML outside an Outlook conditional. -/
-theorem C02_partial (bs : List Block) (h : Tame bs false) : StdWF ((render bs).map Tok.toG) :=
-  (wf_spec _ (C02_C03_tame bs h)).1
-
-/-- non-vacuity: chaining section, multi-column section with a group and a raw, a wrapper, a full-width section, a hero -/
-example : Tame [.section ⟨false, false, false, false, false, false, [.col ⟨false, [.text]⟩, .raw false, .group [.col ⟨true, [.text]⟩, .col ⟨false, []⟩]]⟩,
-                .wrapper ⟨false, true, [.sec ⟨false, false, false, false, true, false, [.col ⟨false, [.text]⟩]⟩, .raw false,
-                                        .sec ⟨false, false, true, false, false, false, [.col ⟨false, [.text]⟩]⟩]⟩,
-                .section ⟨true, true, false, false, false, false, [.col ⟨false, [.text]⟩]⟩, .hero [.text]] false := by
-  simp [Tame, Wrapper.tame, secsOf, Section.emit, emitToks, secLeave, nextConsumes]
-
 /-- **C02, the full statement: for EVERY document of the layout grammar** — any sequence of sections, wrappers of any
     configuration (full-width and background-image sections inside them, delegated backgrounds, blank raws), heroes and raw
     content: what standard clients see is strictly nested, conditional comments are delimited and never nested, no VML outside an
     Outlook conditional.  No side condition. -/
 theorem C02_full (bs : List Block) : StdWF ((render bs).map Tok.toG) := (std_spec_all bs).1
 
-/-- **C02 for every body whose wrappers are tame** (the older, weaker form, kept because C03 shares its hypothesis): any sequence of sections (full-width, background image, chaining or not),
-    heroes and raw content — the classes `std:mismatch` and `nested-cond` recorded earlier are repaired in body.go -/
-theorem C02_all_bodies (bs : List Block) (hw : WrappersTame bs) : StdWF ((render bs).map Tok.toG) :=
-  (wf_spec _ (C02_C03_all bs hw)).1
+/-- the same through the combined machine (both views at once): every document is accepted by it -/
+theorem C02_combined (bs : List Block) : StdWF ((render bs).map Tok.toG) := (wf_spec _ (C02_C03_all bs)).1
 
 /-- the formerly failing shapes, now well formed -/
 example : StdWF ((render [.section ⟨false, false, false, false, false, false, [.col ⟨false, [.text]⟩]⟩,
